@@ -71,6 +71,12 @@ CHECKS = {
    text="TLC checks u - r = x*y mod p with range conditions for every (p, x, y, r) of five small primes, and the Fx/Fxk share equations for all bits and 3-bit labels; on the real code VOLE sessions of 2-3 Mul calls (lengths 1..2000 across chunk boundaries; P-256 prime, 2^255-19, 2^256-189, 65537, small primes, also changing between calls; elements 0, 1, p-1, short, random) are verified element-wise with math/big, and the recorded small-modulus elements and all Fx/Fxk runs (all (a,b), boundary labels) by TLC; Fx/Fxk also run from 8 concurrent instances and under the race detector.",
    note="Trusts TLC, math/big for 256-bit moduli, the Go race detector for the overlap of concurrent instances.",
    ref="5 C20"),
+ "C03": dict(
+   technique="TLA+ spec Mpcl.tla: the documented core of MPCL as a three-address language with a reference interpreter (TLC states are programs); TLC-generated programs with predicted results rendered to MPCL, compiled by the real compiler and compared bit for bit; every shipped @Test vector evaluated on the real circuit",
+   level="translation_validation",
+   text="The specification fixes the meaning of wrapping arithmetic, signed/unsigned comparison, truncating division, constant shifts, casts, literal operands, if/else phi (incl. nested ifs and calls inside a branch), early return, unrolled loops, arrays, structs and multi-result calls; TLC's simulation enumerates thousands of programs per run over several width sets and evaluates each with the interpreter on up to 49 boundary input pairs; the harness renders each program as MPCL source, compiles it with compiler.New(params).Compile and compares Circuit.Compute with the prediction; the repository's own 205 @Test vectors (72 programs) are re-evaluated the way testsuite_test.go reads them.",
+   note="Trusts TLC and the renderer (a total function from the three-address form to MPCL source); widths above 13 bits are covered relationally under C07; programs the compiler rejects are counted separately.",
+   ref="5 C03"),
 }
 
 NOT_APPLICABLE = {}
